@@ -303,3 +303,112 @@ where
     }
     r
 }
+
+/// Node hand-over between threads with nothing but the crate's own synchronisation (second-round
+/// seed C10y: the swap that puts an exiting thread's node into cooldown weakened to `Relaxed`).
+/// One round: thread A (fresh) loads a guard - a debt in a fast slot of its node - returns the guard
+/// to the controlling thread as its result and exits; thread C, started *before* A and told about
+/// A's exit only through a relaxed flag set from a thread-local destructor that runs after the
+/// crate's own, then uses the crate for the first time and adopts a node (A's, if it sees it
+/// released). It must find A's slot still occupied. Nothing is stored, so the value's count must stay
+/// at 2 (container + the controlling thread's handle) while the guard lives and after it is dropped.
+/// Hook-less; meant for Miri (the stale view of the slot needs its store-buffer emulation).
+pub fn node_reuse<V: Val, S: StratExt<V>>(rounds: usize) -> u64
+where
+    Guard<V, S>: Send,
+{
+    use std::cell::Cell;
+    use std::sync::atomic::{AtomicUsize, Ordering::Relaxed};
+    static A_GONE: AtomicUsize = AtomicUsize::new(0);
+    static EPOCH: AtomicUsize = AtomicUsize::new(0);
+    struct Sentinel(Cell<usize>);
+    impl Drop for Sentinel {
+        fn drop(&mut self) {
+            // Relaxed: must not create a happens-before edge from A to C.
+            A_GONE.store(self.0.get(), Relaxed);
+        }
+    }
+    thread_local! {
+        static SENTINEL: Sentinel = Sentinel(Cell::new(0));
+    }
+    let base = EPOCH.fetch_add(rounds + 1, Relaxed) + 1;
+    let p = V::fresh(4242);
+    let shared = Arc::new(ArcSwapAny::<V, S>::new(p.clone()));
+    let mut reused = 0u64;
+    for round in 0..rounds {
+        let tag = base + round;
+        let c = {
+            let shared = Arc::clone(&shared);
+            std::thread::spawn(move || {
+                let mut spins = 0u64;
+                while A_GONE.load(Relaxed) != tag {
+                    spins += 1;
+                    if spins > 20_000_000 {
+                        return None;
+                    }
+                    std::thread::yield_now();
+                }
+                // the very first use of the crate in this thread: adopts a node
+                let g2 = shared.load();
+                let node = arc_swap::verif::thread_node();
+                let _ = g2.vid();
+                drop(g2);
+                node
+            })
+        };
+        let a = {
+            let shared = Arc::clone(&shared);
+            std::thread::spawn(move || {
+                // touched before the crate's thread-local: destroyed after it
+                SENTINEL.with(|s| s.0.set(tag));
+                let g = shared.load();
+                let node = arc_swap::verif::thread_node();
+                (g, node)
+            })
+        };
+        let (g, a_node) = match a.join() {
+            Ok(x) => x,
+            Err(_) => {
+                runner::count("race.thread_panicked", 1);
+                break;
+            }
+        };
+        let c_node = match c.join() {
+            Ok(n) => n,
+            Err(_) => {
+                runner::count("race.thread_panicked", 1);
+                std::mem::forget(g);
+                break;
+            }
+        };
+        if a_node.is_some() && a_node == c_node {
+            reused += 1;
+        }
+        let _ = g.vid();
+        let before = p.strong();
+        drop(g);
+        let after = p.strong();
+        if before != 2 || after != 2 {
+            crate::viol::report(
+                "C10",
+                "guard-released-what-it-did-not-hold",
+                format!(
+                    "node hand-over round {}: nothing was stored, yet the value's count was {} while a guard that outlived its thread existed and {} after dropping it (expected 2 and 2: container + one handle); the thread that adopted the node {} the same node",
+                    round, before, after, if a_node == c_node { "got" } else { "did not get" }
+                ),
+            );
+            // do not make it worse: the container would release a reference it may no longer have
+            std::mem::forget(shared);
+            std::mem::forget(p);
+            runner::count("race.node_reuse.adopted_same_node", reused);
+            return reused;
+        }
+    }
+    runner::count("race.node_reuse.rounds", rounds as u64);
+    runner::count("race.node_reuse.adopted_same_node", reused);
+    if let Ok(c) = Arc::try_unwrap(shared) {
+        drop(c.into_inner());
+    }
+    drop(p);
+    reused
+}
